@@ -375,11 +375,21 @@ def relay_checks(ctx, net, mine, rng, ci):
     level+1 (levels 1..3), and by nobody when there is no next level (level 4)"""
     picks = [a for a in mine if a in (0o1, 0o3, 0o21, 0o45, 0o321, 0o543, 0o4321, 0o1111, 0o5555)]
     picks += rng.sample([a for a in mine if a], min(3, len([a for a in mine if a])))
-    for n in picks:
+    for pi, n in enumerate(picks):
         lvl = net_ref.level(n)
         o = net.objs[n]
         net.clear_rx()
-        o.multicast_relay = True
+        moved = None
+        if pi % 2:
+            # the relay was switched on while the object still had ANOTHER address (another level);
+            # it was given its address afterwards (node_address setter; a mesh node's lease does the same)
+            moved = rng.choice([a for a in ALL if net_ref.level(a) != lvl])
+            o.node_address = moved
+            o.multicast_relay = True
+            o.node_address = n
+            ctx.count("relays_switched_on_before_the_node_was_given_its_address")
+        else:
+            o.multicast_relay = True
         node = net.node
         node.deadline = node.t + 2000 * W.MS
         try:
@@ -397,9 +407,9 @@ def relay_checks(ctx, net, mine, rng, ci):
         got = sorted(a for a, p in rec) if pkt is not None else []
         want = sorted(a for a in ALL if net_ref.level(a) == lvl + 1 and a != n) if lvl < 4 else []
         if pkt is None or got != want or any(p != 0 for a, p in rec):
-            ctx.violation("relay-wrong-level", "node %o (level %d) relaying a multicast: %s, accepted by %d nodes of "
+            ctx.violation("relay-wrong-level", "node %o (level %d%s) relaying a multicast: %s, accepted by %d nodes of "
                           "level(s) %r, expected %d nodes of level %d"
-                          % (n, lvl, "nothing transmitted" if pkt is None else "sent to %s" % pkt.addr.hex(), len(got),
+                          % (n, lvl, "" if moved is None else "; relay switched on while it was node %o" % moved, "nothing transmitted" if pkt is None else "sent to %s" % pkt.addr.hex(), len(got),
                              sorted({net_ref.level(a) for a in got}), len(want), lvl + 1), case)
             return
         ctx.nontrivial((ci, "relay", lvl))
